@@ -582,6 +582,66 @@ impl Bdd {
     }
 }
 
+/// Verification hook (only compiled with `--cfg adf_obdd_verif`): read-only dump of the bookkeeping tables.
+#[cfg(adf_obdd_verif)]
+impl Bdd {
+    /// One line per table, entries sorted: unique table, var_deps, count_cache, ite_cache, restrict_cache.
+    pub fn verif_audit(&self) -> String {
+        let mut out = String::new();
+        let mut cache: Vec<String> = self
+            .cache
+            .iter()
+            .map(|(n, t)| format!("{}:{}:{}={}", n.var().value(), n.lo().value(), n.hi().value(), t.value()))
+            .collect();
+        cache.sort();
+        out.push_str(&format!("uniq {}\n", cache.join(";")));
+        #[cfg(feature = "variablelist")]
+        {
+            let vd: Vec<String> = self
+                .var_deps
+                .iter()
+                .map(|s| {
+                    let mut v: Vec<usize> = s.iter().map(|x| x.value()).collect();
+                    v.sort();
+                    v.iter().map(|x| x.to_string()).collect::<Vec<_>>().join(",")
+                })
+                .collect();
+            out.push_str(&format!("vdeps {}\n", vd.join(";")));
+        }
+        let mut cc: Vec<(usize, String)> = self
+            .count_cache
+            .borrow()
+            .iter()
+            .map(|(t, (m, p, d))| {
+                (t.value(), format!("{}={},{},{},{},{}", t.value(), m.cmodels, m.models, p.cmodels, p.models, d))
+            })
+            .collect();
+        cc.sort();
+        out.push_str(&format!("counts {}\n", cc.into_iter().map(|x| x.1).collect::<Vec<_>>().join(";")));
+        let mut ic: Vec<(usize, usize, usize, usize)> = self
+            .ite_cache
+            .iter()
+            .map(|((i, t, e), r)| (i.value(), t.value(), e.value(), r.value()))
+            .collect();
+        ic.sort();
+        out.push_str(&format!(
+            "itec {}\n",
+            ic.iter().map(|x| format!("{},{},{}={}", x.0, x.1, x.2, x.3)).collect::<Vec<_>>().join(";")
+        ));
+        let mut rc: Vec<(usize, usize, bool, usize)> = self
+            .restrict_cache
+            .iter()
+            .map(|((t, v, b), r)| (t.value(), v.value(), *b, r.value()))
+            .collect();
+        rc.sort();
+        out.push_str(&format!(
+            "resc {}\n",
+            rc.iter().map(|x| format!("{},{},{}={}", x.0, x.1, x.2 as u8, x.3)).collect::<Vec<_>>().join(";")
+        ));
+        out
+    }
+}
+
 #[cfg(test)]
 mod test {
     use super::*;
